@@ -22,3 +22,9 @@ pub proof fn axiom_slice_len_bound<T>(s: &[T])
 pub proof fn axiom_vec_len_bound<T>(v: &Vec<T>)
     ensures v@.len() <= usize::MAX
 { }
+
+// std: "Vec never allocates more than isize::MAX bytes" - for non-zero-sized T the length fits an isize.
+#[verifier::external_body]
+pub proof fn axiom_vec_len_isize<T>(v: &Vec<T>)
+    ensures v@.len() <= isize::MAX
+{ }
